@@ -266,6 +266,11 @@ pub fn crc_repaired_mutation(rng: &mut Rng, bytes: &[u8], frames: &[flacref::dec
 
 fn all_malforms(rng: &mut Rng, nch: u8) -> Vec<Malform> {
     let s = rng.below(nch as u64) as u8;
+    all_malforms_for(rng, s)
+}
+
+/// every knob, aimed at subframe `s`
+fn all_malforms_for(rng: &mut Rng, s: u8) -> Vec<Malform> {
     vec![
         Malform::BsCode0,
         Malform::RateCode15,
@@ -291,12 +296,39 @@ fn all_malforms(rng: &mut Rng, nch: u8) -> Vec<Malform> {
         Malform::HugeUnary(s, *rng.pick(&[100u32, 5000, 70000])),
         Malform::Truncate(rng.below(1000) as u16),
         Malform::ResidualMin(s),
+        Malform::LpcBlowup(s),
+        Malform::LpcDoubling(s),
     ]
 }
 
 /// A generated stream with one malformed frame (checksums valid).
 pub fn malformed_case(rng: &mut Rng, which: Option<Malform>) -> (Vec<u8>, String) {
+    malformed_case_in(rng, which, false)
+}
+
+/// `wide_side`: 32-bit stereo with a decorrelated (33-bit) side channel in every frame
+pub fn malformed_case_in(rng: &mut Rng, which: Option<Malform>, wide_side: bool) -> (Vec<u8>, String) {
     let mut c = c03::random_case(rng, false);
+    if wide_side {
+        c.params.bps = 32;
+        if c.params.channels != 2 {
+            c.params.channels = 2;
+            let first = c.pcm[0].clone();
+            let second: Vec<i32> = first.iter().map(|v| v.wrapping_mul(3) ^ 0x55AA).collect();
+            c.pcm = vec![first, second];
+        }
+        let a = 8 + rng.below(3) as u8;
+        for p in c.plans.iter_mut() {
+            p.assignment = a;
+            while p.subs.len() < 2 {
+                p.subs.push(SubPlan::fixed(1));
+            }
+            p.subs.truncate(2);
+            for sp in p.subs.iter_mut() {
+                sp.method = 1;
+            }
+        }
+    }
     let nf = c.plans.len();
     let fi = rng.below(nf as u64) as usize;
     let m = which.unwrap_or_else(|| {
@@ -432,7 +464,7 @@ pub fn run(ctx: &Ctx, rep: &mut Report) {
     }
     let mut rng = ctx.rng(0xC04);
     // (a) every malform knob x a few surroundings (each-choice)
-    let reps = if ctx.thorough { 12 } else { 3 };
+    let reps = if ctx.thorough { 16 } else { 6 };
     let knobs = all_malforms(&mut rng, 1).len();
     let mut idx = 0u64;
     for k in 0..knobs {
@@ -446,6 +478,12 @@ pub fn run(ctx: &Ctx, rep: &mut Report) {
             // re-derive with the case's own channel count inside malformed_case when the knob is per-subframe
             let (bytes, origin) = malformed_case(&mut r2, Some(m));
             run_one(rep, &bytes, &origin, "malform-knob");
+            // the same knob inside a 32-bit stereo stream with a 33-bit side channel, aimed at each subframe
+            for sidx in 0..2u8 {
+                let m = all_malforms_for(&mut r2, sidx)[k];
+                let (bytes, origin) = malformed_case_in(&mut r2, Some(m), true);
+                run_one(rep, &bytes, &format!("{origin} [32-bit side channel]"), "malform-knob-wide-side");
+            }
         }
     }
     // (b) fixtures from the repository: truncated and spliced
@@ -482,8 +520,9 @@ pub fn run(ctx: &Ctx, rep: &mut Report) {
                 }
             }
             4 => {
-                let (bytes, origin) = malformed_case(&mut rng, None);
-                run_one(rep, &bytes, &origin, "malform-knob");
+                let wide = rng.chance(1, 3);
+                let (bytes, origin) = malformed_case_in(&mut rng, None, wide);
+                run_one(rep, &bytes, &origin, if wide { "malform-knob-wide-side" } else { "malform-knob" });
             }
             5 => {
                 if let Some((bytes, origin)) = lying_metadata_case(&mut rng) {
